@@ -223,6 +223,17 @@ func (c *Ctx) contractEffect(e *effects, ct *Contract, names calleeNames) {
 			e.setAll("callee " + ct.Name + " modifies *")
 			return
 		}
+		if m.Text == "streams" {
+			e.streams = true
+			e.heap["ghost.sid"] = true
+			e.heap["ghost.lim"] = true
+			continue
+		}
+		if strings.HasPrefix(m.Text, "streamid(") {
+			e.heap["ghost.sid"] = true
+			e.heap["ghost.lim"] = true
+			continue
+		}
 		if m.Text == "foreign" || (strings.HasPrefix(m.Text, "foreign(") && strings.HasSuffix(m.Text, ")")) {
 			p := ""
 			if m.Text != "foreign" {
